@@ -74,6 +74,8 @@ CHECK_DEADLOCK FALSE
 
 ARRANGE_CFG = """SPECIFICATION ASpec
 CONSTANTS KnownDev = {known}
+  WithIntro = {intro}
+  SetIds = {sets}
 INVARIANTS OrderFree Emit
 CHECK_DEADLOCK FALSE
 """
@@ -98,23 +100,26 @@ def run_c14(ctx):
 
 def run_c16(ctx):
     devs = known_devs()
-    res = vlib.run_tlc(ctx, "MCArrange", ARRANGE_CFG.format(known=tlaset(sorted(devs))), timeout=3400, xss="64m")
+    allsets = ["s1", "s2", "s3", "s4", "s5", "s6", "s7", "s8"]
+    # quick: the 6-definition set s8 and the 5-definition sets dominate the cost; permutations are thinned below
+    # quick: every set, every extend-move and every cut pattern stays represented; the arrangements replayed are thinned
+    keep = (lambda i: i % 8 == ctx.seed % 8) if ctx.tier == "quick" else None
+    res = vlib.run_tlc(ctx, "MCArrange", ARRANGE_CFG.format(known=tlaset(sorted(devs)), intro="FALSE", sets=tlaset(allsets)), timeout=3400, xss="64m",
+                       vec_filter=keep)
     vlib.require_clean(res, "MCArrange")
     vecs = res.vecs
-    if ctx.tier == "quick":
-        # every set, every extend-move and every cut pattern stays represented; permutations are thinned
-        vecs = [v for i, v in enumerate(vecs) if i % 4 == ctx.seed % 4]
     loadhist(ctx, vecs, "arrangements", {"verdict", "atomic", "schema"}, devs)
     ctx.exhaustive = ctx.tier == "thorough"
-    ctx.rule = ("for each of 7 definition sets (5 valid, 2 invalid; all kinds, directive uses with and without default arguments, a schema block): every "
+    ctx.rule = ("for each of 8 definition sets (6 valid, 2 invalid; all kinds, directive uses with and without default arguments, a schema block): every "
                 "permutation x every cut into up to three successive loads x every move of a last member into an extend block, restricted to arrangements "
                 "whose intermediate loads are accepted; TLC checks OrderFree on the specification and each arrangement is replayed on a real Root whose "
-                "read-back must equal the canonical schema of the reference arrangement (quick tier: every 4th arrangement, chosen by the seed). "
+                "read-back must equal the canonical schema of the reference arrangement (quick tier: every 8th arrangement, chosen by the seed). "
                 "non-trivial = arrangement with more than one load or an extend block")
 
 
 RULES_CFG = """SPECIFICATION RSpec
 CONSTANTS KnownDev = {known}
+  WithIntro = {intro}
 INVARIANTS BasesValid MutationsRefused Emit
 CHECK_DEADLOCK FALSE
 """
@@ -122,7 +127,7 @@ CHECK_DEADLOCK FALSE
 
 def run_c13(ctx):
     devs = known_devs()
-    res = vlib.run_tlc(ctx, "MCRules", RULES_CFG.format(known=tlaset(sorted(devs))), timeout=3400, xss="64m")
+    res = vlib.run_tlc(ctx, "MCRules", RULES_CFG.format(known=tlaset(sorted(devs)), intro="FALSE"), timeout=3400, xss="64m")
     vlib.require_clean(res, "MCRules")
     rep = loadhist(ctx, res.vecs, "mutations", {"verdict", "offender", "schema"}, devs, extra=["-offender"])
     muts = sorted({v["tag"].split(":", 1)[1] for v in res.vecs})
@@ -135,7 +140,28 @@ def run_c13(ctx):
                 "verdict, offender named by the error, and for accepted documents the read-back schema must agree. non-trivial = refused document" % (len(muts), len(res.vecs)))
 
 
-RUNNERS = {"C13": run_c13, "C14": run_c14, "C16": run_c16}
+def run_c17(ctx):
+    devs = known_devs()
+    aspects = {"intro", "verdict", "schema"}
+    res = vlib.run_tlc(ctx, "MCRules", RULES_CFG.format(known=tlaset(sorted(devs)), intro="TRUE"), timeout=3400, xss="64m")
+    vlib.require_clean(res, "MCRules")
+    vecs = [v for v in res.vecs if ":valid_" in v["tag"]]
+    loadhist(ctx, vecs, "base-schemas", aspects, devs, extra=["-intro"])
+    keep = (lambda i: i % 16 == ctx.seed % 16) if ctx.tier == "quick" else (lambda i: i % 2 == ctx.seed % 2)
+    res = vlib.run_tlc(ctx, "MCArrange", ARRANGE_CFG.format(known=tlaset(sorted(devs)), intro="TRUE", sets=tlaset(["s1", "s2", "s3", "s4", "s5", "s8"])),
+                       timeout=3400, xss="64m", vec_filter=keep)
+    vlib.require_clean(res, "MCArrange")
+    loadhist(ctx, res.vecs, "arranged-schemas", aspects, devs, extra=["-intro"])
+    ctx.rule = ("for every accepted schema of the base/valid-variant documents of MCRules.tla and of the arrangements of MCArrange.tla (thinned), the full "
+                "introspection request (types with kind/name/description, fields with arguments, types unrolled through ofType, isDeprecated and "
+                "deprecationReason, interfaces, possibleTypes, enum values, input fields, directives with locations and arguments, the three root types) is "
+                "run with includeDeprecated true and false on roots whose application data is served by reflection, by a Resolver object and by an installed "
+                "root (any) resolver, and the response projected on the view Introspect!Intro prescribes; __type on an unknown name must be null. "
+                "non-trivial = schema reached through more than one load or an extend block")
+    ctx.assumptions.append("defaultValue rendering is not compared (not part of the statement)")
+
+
+RUNNERS = {"C13": run_c13, "C14": run_c14, "C16": run_c16, "C17": run_c17}
 
 
 def run(ctx):
